@@ -126,6 +126,32 @@ class Ledger:
         """[(key, weight, note, flag)] — each key is applied at most once per path"""
         return self._events_from_facts(U.edge_facts(self.b, bb, succ))
 
+    # pure predicate -> (family, variant index it asserts when true, variant index when false); None = not a variant question
+    PURE = {'is_ok': ('variant', 0, 1), 'is_err': ('variant', 1, 0), 'is_some': ('variant', 1, 0), 'is_none': ('variant', 0, 1), 'is_null': ('null', True, False)}
+
+    def pure_predicates(self, bb, succ):
+        b = self.b
+        key = ('pp', bb, succ)
+        if key in self._edge:
+            return self._edge[key]
+        out = []
+        for f in U.edge_facts(b, bb, succ):
+            if f[0] == 'bool' and f[1] and f[1][0] == 'call':
+                t = f[1][2]
+                nm = U.callee_name(t)
+                if nm in self.PURE and t['args'] and ('result::Result' in t['callee'].get('path', '') or 'option::Option' in t['callee'].get('path', '') or 'ptr::' in t['callee'].get('path', '')):
+                    fam, when_true, when_false = self.PURE[nm]
+                    src = frozenset(b.origins(t['args'][0]))
+                    if src:
+                        out.append((('pure', fam, src), when_true if f[2] else when_false))
+            elif f[0] == 'variant':
+                # `if let Err(_) = x`, `matches!(x, Err(_))`, `match x {..}` asked again about the same value
+                src = frozenset(b.origins(f[1]))
+                if src and all(o[0] == 'call' for o in src):
+                    out.append((('pure', 'variant', src), f[2]))
+        self._edge[key] = out
+        return out
+
     def path_events(self, bb, succ, path):
         """A boolean that is assigned in several places (`let owned = match .. { None => true, Some(d) => !d.pay() }`) tells
         nothing on the edge alone; along one *path* the assignment that was executed last is known. Returns 'infeasible'
@@ -480,6 +506,17 @@ def analyse(fx, b, col, rule='LEDGER', unwind_rule='LEDGER-UNWIND', declared_exi
             nb = after
             npaid = paid
             napplied = applied
+            # pure predicates of one value asked twice (`if swapped.is_err() {..} ..; if swapped.is_err() {..}`) answer the same:
+            # a path that takes contradicting outcomes is infeasible
+            if k == 'switch':
+                contradiction = False
+                for pk, pv in lg.pure_predicates(bb, succ):
+                    if any(isinstance(x, tuple) and len(x) == 2 and x[0] == pk and x[1] != pv for x in napplied):
+                        contradiction = True
+                        break
+                    napplied = napplied | {(pk, pv)}
+                if contradiction:
+                    continue
             evs = lg._edge.get((bb, succ), ())
             if not evs and k == 'switch':
                 evs = lg.path_events(bb, succ, path)
